@@ -67,6 +67,9 @@ def derive_via(root, path, via):
        {"history": [i, ...]}     other children are requested from the same parent object first (errors ignored),
                                  then the wanted index (possibly again)"""
     path = list(path)
+    if via and "form" in via:
+        # the same index list handed to derive_path as another iterable
+        return root.derive_path({"tuple": tuple(path), "iter": iter(path), "gen": (i for i in path), "map": map(int, path), "range": path}[via["form"]])
     if not via or not path:
         return root.derive_path(path)
     parent = root.derive_path(path[:-1])
@@ -134,6 +137,14 @@ class Bip32Prop(BaseProp):
                     ob = [node.key.hex(), node.chain_code.hex(), node.depth, node.index]
                 except Exception:
                     ob = None
+            # the chosen PRF output belongs to the LAST request; when the implementation answered that request without asking the
+            # PRF (the same index had been requested before on the same object), the model must still be told what the PRF is at
+            # that time: the message is the one of the earlier request for the same parent and index
+            via = case.get("via") or {}
+            if case.get("stub") and via.get("history") and via["history"][-1] == case["path"][-1] and rec.hmac_order:
+                for o, v in rec.prf_stub.table.items():
+                    if rec.prf_stub.count <= o:
+                        rec.hmac512[rec.hmac_order[-1]] = v
             return {"ob": ob, "or": c_oracles(rec), "err": ob is None}
         if k == "PubPriv":
             s = case["start"]
